@@ -171,8 +171,11 @@ class small_stack:
         self.normal = sys.getrecursionlimit()
 
     def __enter__(self):
-        import inspect
-
+        # a trace function armed for another operation (a crash point of a call in flight) would
+        # use frames of its own inside the window: it is parked while the window is open
+        self.trace = sys.gettrace()
+        if self.trace is not None:
+            sys.settrace(None)
         depth = frame_depth(sys._getframe())
         sys.setrecursionlimit(depth + max(self.extra, 3))
         return self
@@ -182,4 +185,66 @@ class small_stack:
 
     def __exit__(self, *a):
         sys.setrecursionlimit(self.normal)
+        if self.trace is not None:
+            sys.settrace(self.trace)
+        return False
+
+
+class InjectedAbort(BaseException):
+    "Injected asynchronous exception that is not an Exception (`except Exception` never sees it)."
+
+
+def crash_exception(kind: str, tag=""):
+    "A fresh instance of the asynchronous exception a crash point delivers."
+    if kind == "keyboard":
+        return KeyboardInterrupt(f"injected at a crash point {tag}")
+    if kind == "memory":
+        return MemoryError(f"injected at a crash point {tag}")
+    return InjectedAbort(f"injected at a crash point {tag}")
+
+
+class crash_at:
+    """Fault "crash at an arbitrary point": an asynchronous exception (what Ctrl-C, a failed
+    allocation or a kill request delivered as an exception do to a running operation) surfaces
+    at the k-th source line that code under `prefix` (the library under test) executes inside the
+    block - in frames entered after the block began, on the thread that armed it.  Exactly one
+    exception is delivered; if the block executes fewer than k library lines nothing happens.
+    Lines are counted only while `active()` is true and the tracer is not paused (the simulated
+    back ends pause it: their own use of the library is not the operation being crashed).
+    Deterministic: the line sequence is a function of the code and its inputs."""
+
+    def __init__(self, k, exc, prefix=None, active=None):
+        self.k = int(k)
+        self.exc = exc
+        self.prefix = prefix or (func_adl_src().rstrip("/") + "/func_adl/")
+        self.active = active
+        self.n = 0
+        self.fired = False
+        self.paused = 0
+        self.prev = None
+
+    def tracer(self, frame, event, arg):
+        if self.fired:
+            return None
+        if frame.f_code.co_filename.startswith(self.prefix):
+            return self._local
+        return None
+
+    def _local(self, frame, event, arg):
+        if event == "line" and not self.fired and not self.paused and (
+                self.active is None or self.active()):
+            self.n += 1
+            if self.n == self.k:
+                self.fired = True
+                sys.settrace(None)
+                raise self.exc
+        return self._local
+
+    def __enter__(self):
+        self.prev = sys.gettrace()
+        sys.settrace(self.tracer)
+        return self
+
+    def __exit__(self, *a):
+        sys.settrace(self.prev)
         return False
